@@ -110,6 +110,11 @@ def check(sp, at, side, edit, target):
             raise Violation("copy-disturbs-registry", "an earlier node lost its registry entry after further copies", case)
     # one edit on one side
     tl = cn if side else orig_all
+    need = {"shift-left": lambda n: len(n.children) >= 2, "shift-right": lambda n: len(n.children) >= 2,
+            "attr-change": lambda n: n.attributes, "attr-": lambda n: n.attributes, "extra-change": lambda n: n.extras,
+            "ns-": lambda n: n.nsmap, "child-": lambda n: n.children, "clear": lambda n: n.children}.get(edit)
+    able = [n for n in tl if need(n)] if need else tl
+    tl = able or tl          # the edit lands on a node it applies to whenever the chosen side has one
     tgt = tl[target % len(tl)]
     other_root = t if side else c
     before = snapshot.deep(other_root)
@@ -129,8 +134,13 @@ def check(sp, at, side, edit, target):
 
 @st.composite
 def cases(draw):
+    from vf.pre import Pre
+    pre = Pre(draw, 8)      # control choices first (vf/pre.py)
+    edit, side, target = pre.pick(ALL_EDITS), pre.bool(), pre.int(0, 40)
+    # the copied node: the root half of the time (so that the copy side has enough structure for every kind of edit)
+    at = 0 if pre.bool() else pre.int(0, 40)
     sp = draw(treegen.arb_spec(16))
-    return (sp, draw(st.integers(0, 40)), draw(st.booleans()), draw(st.sampled_from(ALL_EDITS)), draw(st.integers(0, 40)))
+    return (sp, at, side, edit, target)
 
 
 def hyp_shard(ctx, shard):
